@@ -140,21 +140,42 @@ def validate_reader(chk, seeds):
 # items
 
 class Case:
-    __slots__ = ("family", "label", "item", "data", "asm")
+    __slots__ = ("family", "label", "item", "data", "asm", "field")
 
-    def __init__(self, family, label, item, data=None, asm=None):
-        self.family, self.label, self.item, self.data, self.asm = family, label, item, data, asm
+    def __init__(self, family, label, item, data=None, asm=None, field="?"):
+        self.family, self.label, self.item, self.data, self.asm, self.field = family, label, item, data, asm, field
 
 
 def m_item(si, off, dl, repl):
     return "[:m %d %d %d %s]" % (si, off, dl, jdn(bytes(repl)))
 
 
-def seed_cases(family, si, name, img, edits):
+def norm_field(name):
+    return re.sub(r"\[\d+\]", "[]", name)
+
+
+def field_map(r):
+    """offset -> normalised name of the field of the seed that covers it."""
+    fm = ["end"] * (len(r.d) + 1)
+    for f in r.fields:
+        for o in range(f.off, f.end):
+            fm[o] = norm_field(f.name)
+    return fm
+
+
+def seed_cases(family, si, name, img, edits, fmap):
     out = []
     for label, off, dl, repl in edits:
-        out.append(Case(family, "%s %s" % (name, label), m_item(si, off, dl, repl), model.apply_edit(img, off, dl, repl)))
+        out.append(Case(family, "%s %s" % (name, label), m_item(si, off, dl, repl), model.apply_edit(img, off, dl, repl),
+                        field=fmap[min(off, len(fmap) - 1)]))
     return out
+
+
+def asm_field(path):
+    if path is None:
+        return "asm:scalar"
+    parts = re.findall(r":([A-Za-z-]+)|(-?\d+)", path)
+    return "asm:" + ".".join(k if k else "*" for k, n in parts) if parts else "asm:root"
 
 
 ASM_VALUES = ["nil", "true", "-1", "0", "1", "2", "127", "128", "255", "256", "32767", "32768", "65535", "65536",
@@ -188,15 +209,16 @@ def asm_cases():
             paths.append((int(parts[1]), parts[2]))
     cases = []
     for ti in range(ntpl):
-        cases.append(Case("asm-base", "template %d unmutated" % ti, "[:am %d () :c10/none]" % ti, None, (ti, "()", None)))
+        cases.append(Case("asm-base", "template %d unmutated" % ti, "[:am %d () :c10/none]" % ti, None, (ti, "()", None),
+                          field="asm:unmutated"))
     for ti, path in paths:
         for v in ASM_VALUES:
             if path == "()" and v in (":c10/delete", ":c10/dup"):
                 continue
             cases.append(Case("asm", "template %d path %s := %s" % (ti, path, v), "[:am %d %s %s]" % (ti, path, v), None,
-                              (ti, path, v)))
+                              (ti, path, v), field=asm_field(path)))
     for v in ASM_SCALARS:
-        cases.append(Case("asm", "asm %s" % v, "[:asm %s]" % v, None, (None, None, v)))
+        cases.append(Case("asm", "asm %s" % v, "[:asm %s]" % v, None, (None, None, v), field="asm:scalar"))
     return cases, ntpl, len(paths)
 
 
